@@ -119,7 +119,7 @@ def run(ctx):
                     p_charge=0.25, p_isotope=0.15, p_static=0.2, p_labile=0.2, p_unknown=0.15, p_mult=0.1)
     rng = ctx.rng
     cap = 1200 if ctx.quick() else 6000
-    for _ in range(ctx.n(900, 20000)):
+    for _ in range(ctx.n(1500, 20000)):
         p = gp.gen_pep(rng, cfg)
         n = len(p.seq)
         if p.res and rng.random() < 0.15:
